@@ -184,9 +184,6 @@ def run(tier: str) -> Check:
         if cat not in seen_c:
             seen_c.add(cat)
             check.oblige("CASE", con, cat, False, finding=Finding("CASE", con, cat, f"CIString: {cat}: e.g. {msg}", {"witness": msg}))
-    from ..lineoff import apply as line_offsets
-
-    line_offsets(check, repo, "LINE-OFFSET", ["src/pest/exceptions.py"], 1)
     # "its message and str() render without raising for every input": the whole rendering path on model states
     from ..rendersem import check_render
 
@@ -213,6 +210,11 @@ def run(tier: str) -> Check:
     for cat, msgs in sorted(cats_c.items()):
         check.oblige("CONTEXT", ccon, cat, False, sample=True, finding=Finding("CONTEXT", ccon, cat, f"error_context: {cat}: e.g. {msgs[0]} ({len(msgs)} of {n_c} model points)", {"witness": msgs[0]}))
     check.floor("context_model_points", 500)
+    # LINE-OFFSET reads how the line table is built (splitlines without keepends, "+ 1" per break); CONTEXT, which has
+    # LF and CRLF texts and every offset, decides what the table is used for: a second opinion
+    from ..lineoff import apply as line_offsets
+
+    check.second_opinion(lambda c: line_offsets(c, repo, "LINE-OFFSET", ["src/pest/exceptions.py"], 1), "CONTEXT", not bad_c)
     check.floor("fail_call_sites", 8)  # a vacuity guard, not a census
     check.floor("furthest_writes", 8)
     return check
